@@ -355,6 +355,49 @@ func RequestsFor(root *ggql.Root, roots [3]string) (reqs []string) {
 			continue
 		}
 		reqs = append(reqs, kw+sel)
+		// every value of every enum-typed argument is used as an input once (a value
+		// that is printed and introspected but cannot be coerced in is a different schema)
+		var fds []*ggql.FieldDef
+		if o, _ := t.(*ggql.Object); o != nil {
+			fds = o.Fields()
+		}
+		extra := 0
+		for _, fd := range fds {
+			for _, a := range fd.Args() {
+				en, _ := ggql.BaseType(a.Type).(*ggql.Enum)
+				if en == nil {
+					continue
+				}
+				if _, isList := a.Type.(*ggql.List); isList {
+					continue
+				}
+				if nn, _ := a.Type.(*ggql.NonNull); nn != nil {
+					if _, isList := nn.Base.(*ggql.List); isList {
+						continue
+					}
+				}
+				for _, v := range en.Values() {
+					if extra >= 12 {
+						break
+					}
+					extra++
+					var args []string
+					for _, o := range fd.Args() {
+						if o == a {
+							args = append(args, o.Name()+": "+string(v.Value))
+						} else if _, ok := o.Type.(*ggql.NonNull); ok {
+							args = append(args, o.Name()+": "+literalFor(o.Type, 0))
+						}
+					}
+					sub := ""
+					switch ggql.BaseType(fd.Type).(type) {
+					case *ggql.Object, *ggql.Interface, *ggql.Union:
+						sub = " { __typename }"
+					}
+					reqs = append(reqs, kw+" { "+fd.Name()+"("+strings.Join(args, ", ")+")"+sub+" }")
+				}
+			}
+		}
 	}
 	return
 }
